@@ -273,6 +273,17 @@ class CoreMixin:
                 return SV(ty, [v.ts[0]])
             if v.ty.args[0].kind == "ref" and ty.args[0].kind == "ref":
                 return SV(ty, v.ts)
+            if ty.args[0].kind == "any" and v.ty.args[0].kind not in ("unknown", "any"):
+                # list of T stored where a list of arbitrary values is expected: the same length, every element injected
+                n = smt.Len(v.ts[0])
+                out = self.ctx.fresh("anylist", smt.seq(U))
+                self.qcount = getattr(self, "qcount", 0) + 1
+                kn = "i!al%d" % self.qcount
+                iv = T(kn, INT)
+                item = SV(v.ty.args[0], [smt.At(c, iv) for c in v.ts])
+                st.assume(smt.Eq(smt.Len(out), n))
+                st.assume(smt.Forall([(kn, INT)], smt.Implies(smt.And(smt.Le(smt.Int(0), iv), smt.Lt(iv, n)), smt.Eq(smt.At(out, iv), self.to_u(item)))))
+                return SV(ty, [out])
             if v.ty.args[0].kind == "ref" and ty.args[0].kind == "opt" and ty.args[0].args[0].kind == "ref":
                 n = smt.Len(v.ts[0])
                 flags = self.ctx.fresh("nn_flags", smt.seq(BOOL))
